@@ -319,6 +319,18 @@ def purge_replay():
         return
     _REPLAY_PURGED[0] = True
     base = os.path.join(VERIF, 'out', 'replay-target', 'debug')
+    # content-based freshness, as for the Kani builds (tools/kani_run.py: tree_digest)
+    import kani_run
+    digest = kani_run.tree_digest('/repo', extra_dirs=(os.path.join(VERIF, 'replay', 'src'), os.path.join(VERIF, 'specs', 'shared')))
+    stamp = os.path.join(VERIF, 'out', 'replay-target', '.verif_tree_digest')
+    try:
+        if open(stamp).read().strip() == digest:
+            return
+    except OSError:
+        pass
+    os.makedirs(os.path.dirname(stamp), exist_ok=True)
+    with open(stamp, 'w') as fh:
+        fh.write(digest)
     for name in ('toml', 'toml_edit', 'toml_datetime', 'toml_write', 'serde_spanned', 'verif_replay'):
         for d in glob.glob(os.path.join(base, '.fingerprint', name + '-*')):
             shutil.rmtree(d, ignore_errors=True)
